@@ -157,7 +157,7 @@ def execute(prop, tier, seed, workers=None, replay=None, limit=None):
             results.append(res)
     results.sort(key=lambda r: r["idx"])
 
-    known = load_known(prop)
+    known = [] if os.environ.get("VERIF_IGNORE_KNOWN") == "1" else load_known(prop)   # (maintenance aid: list every signature)
     by_sig = {}
     for res in results:
         for v in res["viol"]:
